@@ -66,6 +66,7 @@ import http.client
 import io
 import itertools
 import socket
+import sys
 import time
 import urllib.parse
 
@@ -1489,6 +1490,10 @@ def run(ctx):
             if ctx.time_up():
                 return
         walls[name] = round(walls.get(name, 0) + time.time() - t0, 2)
+    import c15_fail                      # body iterators that raise, handlers that return a flag
+    t0 = time.time()
+    c15_fail.run(ctx, sys.modules[__name__])
+    walls['failing iterators'] = round(walls.get('failing iterators', 0) + time.time() - t0, 2)
     e2e_cases(ctx)
 
 
@@ -1497,7 +1502,10 @@ def search(ctx):
 
 
 def replay(ctx, case):
-    if case.get('kind') == 'e2e':
+    if case.get('kind') == 'fail':
+        import c15_fail
+        c15_fail.replay(ctx, case, sys.modules[__name__])
+    elif case.get('kind') == 'e2e':
         e2e_evaluate(ctx, [case], shrink=False)
     else:
         evaluate(ctx, Impl(), [case], shrink=False)
